@@ -47,6 +47,11 @@ type subOp struct {
 type liveSpec struct {
 	Fence   fenceSpec `json:"fence"`
 	DelayUs int       `json:"delay_us"`
+	// Leave: "" = stays until the end (a survivor, fully checked); "quit" /
+	// "close" = the connection sends QUIT / is closed abruptly LeaveUs after
+	// its fence was acknowledged
+	Leave   string `json:"leave,omitempty"`
+	LeaveUs int    `json:"leave_us,omitempty"`
 }
 
 type psCase struct {
@@ -112,11 +117,23 @@ func drawPSCase(rt *rapid.T, maxPubOps, maxLives int) psCase {
 	switch x := rapid.IntRange(0, 11).Draw(rt, "live"); {
 	case x < 3:
 		nlive = 1
-	case x < 5 && maxLives > 1:
+	case x < 6 && maxLives > 1:
 		nlive = rapid.IntRange(2, maxLives).Draw(rt, "nlive")
 	}
 	for i := 0; i < nlive; i++ {
-		p.Lives = append(p.Lives, liveSpec{Fence: drawFence(rt, fmt.Sprintf("live%d", i)), DelayUs: rapid.IntRange(0, 1500).Draw(rt, "livedelay")})
+		l := liveSpec{Fence: drawFence(rt, fmt.Sprintf("live%d", i)), DelayUs: rapid.IntRange(0, 1500).Draw(rt, "livedelay")}
+		if i > 0 {
+			// connection churn: the first live fence always survives, the others
+			// may share its definition and may leave while writes go on
+			if rapid.IntRange(0, 2).Draw(rt, "samefence") == 0 {
+				l.Fence = p.Lives[0].Fence
+			}
+			l.Leave = rapid.SampledFrom([]string{"", "quit", "quit", "close", "close"}).Draw(rt, "leave")
+			if l.Leave != "" {
+				l.LeaveUs = rapid.IntRange(0, 1500).Draw(rt, "leaveus")
+			}
+		}
+		p.Lives = append(p.Lives, l)
 	}
 	universe := p.NChan + len(p.Fences)
 	writes := len(p.Fences) > 0 || len(p.Lives) > 0
@@ -481,6 +498,33 @@ type liveRunner struct {
 	err       string
 	hang      bool
 	done      bool
+	left      bool  // the test made this connection leave (QUIT / close)
+	LeaveT    int64 // instant just before the QUIT was sent / the socket closed
+	leftCh    chan struct{}
+}
+
+// leave makes the connection go away: QUIT (the server closes) or an abrupt
+// close from our side.
+func (l *liveRunner) leave(how string, afterUs int) {
+	defer close(l.leftCh)
+	l.mu.Lock()
+	for !l.acked && !l.done {
+		l.cond.Wait()
+	}
+	ok := l.acked
+	l.mu.Unlock()
+	if !ok {
+		return
+	}
+	time.Sleep(time.Duration(afterUs) * time.Microsecond)
+	l.mu.Lock()
+	l.left, l.LeaveT = true, now()
+	l.mu.Unlock()
+	if how == "quit" {
+		l.conn.Send("QUIT")
+	} else {
+		l.conn.Close()
+	}
 }
 
 func (l *liveRunner) run(args []string, delayUs int) {
@@ -516,12 +560,20 @@ func (l *liveRunner) run(args []string, delayUs int) {
 		t := now()
 		l.mu.Lock()
 		if err != nil {
+			if l.left && err != t38.ErrHang {
+				l.mu.Unlock()
+				return // the end of a connection that was told to go
+			}
 			if err == t38.ErrHang {
 				l.hang = true
 			}
 			l.err = "read: " + err.Error()
 			l.mu.Unlock()
 			return
+		}
+		if v.Kind == '+' && v.Str == "OK" && l.left {
+			l.mu.Unlock()
+			continue // some output modes acknowledge QUIT
 		}
 		if v.Kind != '$' || v.Null {
 			l.err = "unexpected value on a live fence connection: " + v.String()
@@ -829,6 +881,10 @@ func runPubSub(p psCase) *outcome {
 	}
 	for i, live := range lives {
 		go live.run(fenceArgs(p.Lives[i].Fence, key), p.Lives[i].DelayUs)
+		if p.Lives[i].Leave != "" {
+			live.leftCh = make(chan struct{})
+			go live.leave(p.Lives[i].Leave, p.Lives[i].LeaveUs)
+		}
 	}
 	close(start)
 	wg.Wait()
@@ -838,6 +894,9 @@ func runPubSub(p psCase) *outcome {
 			live.cond.Wait()
 		}
 		live.mu.Unlock()
+		if live.leftCh != nil {
+			<-live.leftCh // every leaver is gone before the closing writes
+		}
 	}
 
 	// quiescent phase: the control connection is one more publisher. Two
@@ -1139,10 +1198,14 @@ func (r *psRun) checkLive(li int) bool {
 	for i, k := range liveExp {
 		index[k] = i
 	}
-	if len(liveExp) == 0 {
+	leaver := r.p.Lives[li].Leave != ""
+	if len(liveExp) == 0 && !leaver {
 		panic("harness self-check: closing writes produced no live notification: " + jsonStr(r.p))
 	}
-	last := liveExp[len(liveExp)-1]
+	last := ""
+	if len(liveExp) > 0 {
+		last = liveExp[len(liveExp)-1]
+	}
 	decode := func(d liveDel) (string, bool) {
 		m, seq, ok := decodeFence(d.Payload)
 		if !ok || m.Hook != "" || m.Key != r.key {
@@ -1154,6 +1217,9 @@ func (r *psRun) checkLive(li int) bool {
 		if l.done {
 			return true
 		}
+		if leaver {
+			return false // its stream ends with the connection
+		}
 		if n := len(l.dels); n > 0 {
 			if k, ok := decode(l.dels[n-1]); ok && k == last {
 				return true
@@ -1161,7 +1227,17 @@ func (r *psRun) checkLive(li int) bool {
 		}
 		return false
 	})
-	if !ok || l.done {
+	if leaver {
+		if !ok || l.err != "" {
+			if !ok || l.hang {
+				r.hangOrFail("live-hang", "live fence connection that sent %s was not closed by the server within %v: %s", r.p.Lives[li].Leave, t38.ReplyTimeout, l.err)
+			} else {
+				o.fail("live-protocol", "live fence (leaving): %s", l.err)
+			}
+			return false
+		}
+		o.label("live-left:" + r.p.Lives[li].Leave)
+	} else if !ok || l.done {
 		if !ok || l.hang {
 			r.hangOrFail("live-lost", "live fence connection never received the notification of the closing write (%d of %d received): %s",
 				len(l.dels), len(liveExp), l.err)
@@ -1190,8 +1266,23 @@ func (r *psRun) checkLive(li int) bool {
 		}
 		prev = idx
 	}
+	// a connection that left is only checked for order, duplicates and
+	// foreign messages: notifications are handed over asynchronously, so what
+	// was still on its way when it went is not owed to it
+	churnBefore := int64(math.MaxInt64) // earliest instant at which another live fence had left
+	for oi, ol := range r.lives {
+		if oi != li && r.p.Lives[oi].Leave != "" && ol.LeaveT > 0 && ol.LeaveT < churnBefore {
+			churnBefore = ol.LeaveT
+		}
+	}
 	for i, k := range liveExp {
+		if leaver {
+			break
+		}
 		w := liveW[i]
+		if l.Ack < w.Send && churnBefore < w.Send {
+			o.label("live-survivor-notified-after-another-left")
+		}
 		switch {
 		case l.Ack < w.Send:
 			if got[i] != 1 {
